@@ -93,7 +93,8 @@ def event_values(k, fraction):
         lon, depth, mag = [180.0, 181.5, 200.0, 359.75, 270.125][(k // 7) % 5] + (k // 35) * 0.001, -1.5 - (k // 7) * 0.25, -0.5 - (k // 7) * 0.01
     if k == 2:
         lat = lon = depth = mag = 0.0     # ... and all of its numeric fields are zero (a row of zeros is an event, not a placeholder)
-    return ('ev%d' % k, ms, lat, lon, depth, mag)
+    eid = 'ev%d' % k if k % 7 != 3 else ('ev %d ' % k if k % 2 else ' ev%d' % k)      # some ids end or start with a blank
+    return (eid, ms, lat, lon, depth, mag)
 
 
 def float_path_is_exact(ms):
